@@ -217,6 +217,10 @@ bool QXmppRegistrationManager::handleStanza(const QDomElement &stanza)
     }
 
     if (stanza.tagName() == u"iq") {
+        // only responses are handled here; requests go to the client's fallback (error reply)
+        if (const auto type = stanza.attribute(u"type"_s); type == u"get" || type == u"set") {
+            return false;
+        }
         const QString &id = stanza.attribute(u"id"_s);
 
         if (!id.isEmpty() && id == d->registrationIqId) {
